@@ -20,6 +20,10 @@ func propC08(w *World, r *Report) {
 		}
 	}
 	RunDeadGuard(w, r, enc)
+	for _, a := range boundsAssumptions {
+		r.Assumes(a)
+	}
+	RunLosslessFor(w, r, "C08", newBoundsRun(w))
 	r.Floor("deadguard", 10)
 	r.Floor("twinformula", 1)
 	r.Require("twinformula|opentype/gtab.LookupList|variable lookupHeaderLen|0", "the lookup header size is computed both in LookupList.encode and in LookupList.tryReorder and the two formulas must agree")
@@ -35,4 +39,9 @@ func propC11(w *World, r *Report) {
 	RunReadOnly(w, r, NewEffects(w), "readonly", []string{"(*glyf.Glyph).Components", "(*glyf.Glyph).FixComponents", "(*glyf.Glyph).encodeLen", "(*glyf.Glyph).append", "(glyf.Glyphs).Encode"}, 0)
 	r.Floor("sizeagree", 1)
 	RunGlyfFlagSiblings(w, r)
+	for _, a := range boundsAssumptions {
+		r.Assumes(a)
+	}
+	RunLosslessFor(w, r, "C11", newBoundsRun(w))
+
 }
